@@ -4,7 +4,8 @@
    The statement for arbitrary texts is checked by the extracted composition on every generated case
    (harness/props/C17.py, request 1705); no general induction over the decoder is claimed here. *)
 From Coq Require Import List ZArith QArith Bool.
-From PV Require Import lib.Sx lib.Str lib.Result model.GenSccw model.SccWrite model.SccRoundTrip spec.SpecSccw.
+From PV Require Import lib.Sx lib.Str lib.Result model.GenSccw model.SccWrap model.SccWrite model.SccRoundTrip spec.SpecSccw.
+From PV Require Import model.SccDecoder proofs.SccWriteFacts proofs.SccDocFacts.
 Import ListNotations.
 Open Scope Z_scope.
 
@@ -32,3 +33,23 @@ Lemma roundtrip_shapes :
                 mkWcap (lit "three four") (20000000 # 1) (21000000 # 1)] = true /\
   roundtrip_ok (one_cap (lit "a b c d e f g h i j k l m n o p q r s t u v w x y z a b c d e f g h i j k l m n o p q r s t")) = true.
 Proof. vm_compute. repeat split. Qed.
+
+(* the composition always reaches the reader model: for cues with non-negative times on <= 15 rows the writer model
+   does not fail and its document is split into lines (frame numbers of the times written, odd-parity words) *)
+Theorem reread_reaches_reader : forall caps,
+  (forall c, In c caps -> (0 <= w_start c)%Q /\ (0 <= w_end c)%Q /\ (length (layout_rows (w_text c)) <= 15)%nat) ->
+  exists lines, reread caps = RRRead (read 0 (map to_sline lines))
+                /\ forallb (fun l => forallb word_odd (snd l)) lines = true.
+Proof.
+  intros caps D. unfold reread. destruct (write caps) as [doc|e] eqn:W.
+  - destruct (document_parses caps doc W D) as (codes & lines & _ & P & _ & O). rewrite P. exists lines. split; [reflexivity|exact O].
+  - exfalso. unfold write in W.
+    destruct (res_map (fun c => do code <- text_to_code (w_text c); Ok (code, w_start c, w_end c)) caps) as [codes|e'] eqn:R;
+      [discriminate|].
+    clear W. revert e' R. induction caps as [|c t IH]; intros e' R; cbn [res_map] in R; [discriminate|].
+    destruct (D c (or_introl eq_refl)) as (_ & _ & Dr).
+    destruct (SccWriteFacts.all_bytes_odd_parity (w_text c) Dr) as (ws & Ew & _).
+    rewrite SccWriteFacts.word_stream_shape, Ew in R. cbn [bind] in R.
+    destruct (res_map (fun c0 => do code <- text_to_code (w_text c0); Ok (code, w_start c0, w_end c0)) t) as [rest|e2] eqn:R2;
+      [discriminate|]. apply (IH (fun x Hx => D x (or_intror Hx)) e2 eq_refl).
+Qed.
